@@ -1,6 +1,7 @@
 package rules
 
 import (
+	"strconv"
 	"fmt"
 	"go/constant"
 	"go/token"
@@ -452,7 +453,17 @@ func c05Dialects(c *Ctx, w *prove.World) {
 			ok = true
 		}
 	}
-	if !ok && hasUnknown(enc) != "" {
+	joined := false
+	if !ok {
+		// start + strings.Join(names, end+start) + end: the same bytes as one
+		// (format, name, NUL) triple per dialect — provided the list is not empty
+		if v, msg := c05DialectsJoin(fn, fmtVal); v == 1 {
+			ok, joined = true, true
+		} else if v == -1 {
+			why = msg
+		}
+	}
+	if !ok && !joined && hasUnknown(enc) != "" && !strings.HasPrefix(why, "strings.Join") {
 		c.NotDecided("dialects", "Dialects.Marshal", pos, "layout not recognised: "+hasUnknown(enc))
 	} else if ok {
 		r.OK("dialects", "Dialects.Marshal", pos, "per dialect: format byte "+fmtVal+", name, NUL")
@@ -675,4 +686,126 @@ func dialectsCompareIn(fn *ssa.Function, fmtVal string) bool {
 		}
 	}
 	return false
+}
+
+// c05DialectsJoin reads `prefix + strings.Join(d.Dialects, sep) + suffix` as the
+// returned bytes. Returns 1 when prefix is the format byte, suffix is NUL, sep is
+// NUL+format and the join is only reached for a non-empty list; -1 with a reason
+// when the join form is there but one of these is wrong; 0 when there is no such form.
+func c05DialectsJoin(fn *ssa.Function, fmtVal string) (int, string) {
+	fb, err := strconv.Atoi(fmtVal)
+	if err != nil {
+		return 0, ""
+	}
+	start, end := string(rune(fb)), "\x00"
+	for _, b := range fn.Blocks {
+		ret, isRet := b.Instrs[len(b.Instrs)-1].(*ssa.Return)
+		if !isRet || len(ret.Results) == 0 {
+			continue
+		}
+		v := ret.Results[0]
+		for {
+			if cv, ok := v.(*ssa.Convert); ok {
+				v = cv.X
+				continue
+			}
+			if ct, ok := v.(*ssa.ChangeType); ok {
+				v = ct.X
+				continue
+			}
+			break
+		}
+		// flatten the concatenation
+		var parts []ssa.Value
+		var flat func(x ssa.Value)
+		flat = func(x ssa.Value) {
+			if bo, ok := x.(*ssa.BinOp); ok && bo.Op == token.ADD {
+				flat(bo.X)
+				flat(bo.Y)
+				return
+			}
+			parts = append(parts, x)
+		}
+		flat(v)
+		var join *ssa.Call
+		ji := -1
+		for i, pt := range parts {
+			if call, ok := pt.(*ssa.Call); ok && prove.StaticName(call.Common()) == "strings.Join" {
+				join, ji = call, i
+			}
+		}
+		if join == nil {
+			continue
+		}
+		cs := func(x ssa.Value) (string, bool) {
+			k, ok := x.(*ssa.Const)
+			if !ok || k.Value == nil || k.Value.Kind() != constant.String {
+				return "", false
+			}
+			return constant.StringVal(k.Value), true
+		}
+		pre, suf := "", ""
+		for i, pt := range parts {
+			if i == ji {
+				continue
+			}
+			str, ok := cs(pt)
+			if !ok {
+				return 0, ""
+			}
+			if i < ji {
+				pre += str
+			} else {
+				suf += str
+			}
+		}
+		sep, ok := cs(join.Common().Args[1])
+		if !ok {
+			return 0, ""
+		}
+		switch {
+		case pre != start:
+			return -1, fmt.Sprintf("strings.Join form: the list starts with %q, not with the format byte %q", pre, start)
+		case suf != end:
+			return -1, fmt.Sprintf("strings.Join form: the list ends with %q, not with the NUL terminator of the last dialect", suf)
+		case sep != end+start:
+			return -1, fmt.Sprintf("strings.Join form: entries are separated by %q, not by NUL followed by the format byte", sep)
+		}
+		// reached only for a non-empty list: some dominating test of len(list) against 0
+		guarded := false
+		for x := b; x != nil; x = x.Idom() {
+			d := x.Idom()
+			if d == nil {
+				break
+			}
+			iff, ok := d.Instrs[len(d.Instrs)-1].(*ssa.If)
+			if !ok || len(x.Preds) != 1 {
+				continue
+			}
+			bo, ok := iff.Cond.(*ssa.BinOp)
+			if !ok {
+				continue
+			}
+			call, isLen := bo.X.(*ssa.Call)
+			k, isK := bo.Y.(*ssa.Const)
+			if !isLen || !isK || k.Value == nil || k.Value.ExactString() != "0" {
+				continue
+			}
+			if bi, isB := call.Call.Value.(*ssa.Builtin); !isB || bi.Name() != "len" {
+				continue
+			}
+			onTrue := d.Succs[0] == x
+			switch bo.Op {
+			case token.EQL:
+				guarded = guarded || !onTrue
+			case token.NEQ, token.GTR:
+				guarded = guarded || onTrue
+			}
+		}
+		if !guarded {
+			return -1, "strings.Join form without a guard for the empty list: zero dialects are encoded as a lone format byte and NUL, i.e. one empty dialect"
+		}
+		return 1, ""
+	}
+	return 0, ""
 }
